@@ -168,6 +168,22 @@ def run(ctx):
                           f"{q}: gap `{short(st, 80)}` is not LUMO - HOMO of the same spin's orbital energies")
     if n_gap < 4:
         raise AnalysisError(f"only {n_gap} gap expressions found")
+    # the orbital energies a gap is read from are the ascending eigenvalues of the solver, not a character-tracked permutation of them
+    from ..cfg import build_cfg
+    f = bs.func("Energy.forward")
+    g = build_cfg(f)
+    gaps = [n for n in g.nodes if n.kind == "stmt" and isinstance(n.stmt, ast.Assign) and isinstance(n.stmt.targets[0], ast.Name)
+            and n.stmt.targets[0].id.startswith("e_gap") and "gather" in norm(n.stmt.value)]
+    perm = [n for n in g.nodes if n.kind == "stmt" and isinstance(n.stmt, ast.Assign) and any(callee_attr(c) in ("_crossing_match_molecular_orbitals", "_crossing_match_molecular_orbitals_grouped")
+                                                                                               for c in calls_in(n.stmt))
+            and any(norm(e) == "e" for e in (n.stmt.targets[0].elts if isinstance(n.stmt.targets[0], ast.Tuple) else [n.stmt.targets[0]]))]
+    if not gaps or not perm:
+        raise AnalysisError("Energy.forward: gap / orbital-tracking statements not found")
+    for gp in gaps:
+        tainted = [pm for pm in perm if gp.id in g.reachable(pm.id)]
+        ctx.check(not tainted, "R3", bs, gp.stmt, "Energy.forward", gp.stmt, "gap is read from the solver's ascending orbital energies (before orbital-character tracking permutes them)",
+                  f"`{short(gp.stmt, 60)}` can run after `{short(tainted[0].stmt, 60) if tainted else ''}` permuted the orbital energies: after a level "
+                  f"crossing on a re-evaluated molecule the reported gap is not LUMO - HOMO")
 
     # ------------------------------------------------------------------ R4
     ef = es.func("Electronic_Structure.forward")
@@ -201,6 +217,18 @@ def run(ctx):
     dm = [st for st in ast.walk(ef) if isinstance(st, ast.Assign) and norm(st.targets[0]) == "molecule.dm"]
     ctx.check(bool(dm) and norm(dm[0].value) == "P.detach()", "R4", es, dm[0] if dm else ef, "Electronic_Structure.forward", "molecule.dm", "reported density is the density returned by the force driver",
               "molecule.dm is not the returned density")
+    # the dipole is computed from the density that is returned/reported
+    for m, q in ((bs, "Energy.forward"), (xl, "EnergyXL.forward")):
+        f = m.func(q)
+        dc = [c for c in calls_in(f) if callee_attr(c) == "calc_ground_dipole"]
+        rets = [r for r in ast.walk(f) if isinstance(r, ast.Return) and isinstance(r.value, ast.Tuple) and m.enclosing_function(r) is f]
+        returned = set()
+        for r in rets:
+            returned |= {norm(e) for e in r.value.elts}
+        dens = {"D", "P"} & returned
+        ok = len(dc) == 1 and len(dens) == 1 and norm(dc[0].args[1]) in dens and norm(dc[0].args[0]) == "molecule"
+        ctx.check(ok, "R4", m, dc[0] if dc else f, q, dc[0] if dc else "calc_ground_dipole", f"{q}: dipole is computed from the returned density `{sorted(dens)}`",
+                  f"{q}: dipole is computed from `{norm(dc[0].args[1]) if dc else None}` but the density returned (and used for charges) is {sorted(dens)}: dipole and charges describe different densities")
     dp = repo.mod("seqm/seqm_functions/dipole.py")
     cg = dp.func("calc_ground_dipole")
     t = {norm(st.targets[0]): norm(st.value).replace(" ", "") for st in ast.walk(cg) if isinstance(st, ast.Assign)}
